@@ -73,9 +73,9 @@ def showTail : Tail → String
   | .nextLayerType t => s!"next=lt:{t}"
   | .nextLinkType t => s!"next=link:{t}"
 
-def showPktWith {L : Type} (fields : L → String) (base : L → String) (r : Res (PktBeh L)) : String :=
+def showPktWith {L : Type} (fields : L → String) (base : L → String) (can : Nat) (r : Res (PktBeh L)) : String :=
   match r with
-  | .ok beh => s!"ok {fields beh.added} {base beh.added} trunc={b01 beh.truncated} sets={joinOr beh.setCalls} {showTail beh.tail}"
+  | .ok beh => s!"ok {fields beh.added} {base beh.added} trunc={b01 beh.truncated} sets={joinOr beh.setCalls} can={can} {showTail beh.tail}"
   | .err k => s!"err trunc={b01 (errSetsTruncated k)}"
   | .panic k => "panic " ++ k.toString
 
@@ -285,11 +285,11 @@ def stepLtun (st : St) (ws : List String) : St × String :=
   | ["ltun", "pkt", k, h] =>
     match parseKind k, bytesOfHex h with
     | some .vxlan, some d =>
-      (st, showPktWith showVxFields (fun l => showBase l.contents l.payload) (Vxlan.decodePkt d []))
+      (st, showPktWith showVxFields (fun l => showBase l.contents l.payload) Vxlan.canDecode (Vxlan.decodePkt d []))
     | some .geneve, some d =>
-      (st, showPktWith showGnFields (fun l => showBase l.contents l.payload) (Geneve.decodePkt d []))
+      (st, showPktWith showGnFields (fun l => showBase l.contents l.payload) Geneve.canDecode (Geneve.decodePkt d []))
     | some .gtp, some d =>
-      (st, showPktWith showGtFields (fun l => showBase l.contents l.payload) (Gtp.decodePkt d []))
+      (st, showPktWith showGtFields (fun l => showBase l.contents l.payload) Gtp.canDecode (Gtp.decodePkt d []))
     | _, _ => (st, "bad-op")
   | ["ltun", "rtdec", k, h] =>
     match parseKind k, bytesOfHex h with
